@@ -52,3 +52,10 @@ chk('C13', 'exploration',
     'Non-overlapping ranges, unique names, tuple-aligned set starts (unaligned starts are ambiguous between implementations); aranges '
     'generator cross-validated against llvm-dwarfdump in every run.',
     'ground-truth generator + interval model oracle, exhaustive offset queries per section, stream poisoning', 'DESIGN.md section 4 C13')
+chk('C05', 'exploration',
+    'Reference-model oracle: a state machine written from DWARF 5 6.2.5 against the real decoder on generated line tables (header '
+    'versions 2-5, all header parameters incl. max_ops > 1 and opcode_base from 1 to 255, v5 entry formats, unknown standard/extended '
+    'opcodes, define_file) reached through line_program_for_CU of generated units; header tables, every row, exact consumption of the '
+    'declared extent (traced stream). The model is cross-validated against llvm-dwarfdump -v on programs with max_ops = 1 in every run.',
+    'Model from the standard; VLIW rows validated against the text only; unit and line table share format and address size.',
+    'reference state machine oracle + traced-stream consumption check + third-implementation cross-validation', 'DESIGN.md section 4 C05')
